@@ -464,9 +464,6 @@ impl CertificateParams {
 
 	/// Write a certificate's KeyUsage as defined in RFC 5280.
 	fn write_key_usage(&self, writer: DERWriter) {
-		// RFC 5280 defines 9 key usages, which we detail in our key usage enum
-		// We could use std::mem::variant_count here, but it's experimental
-		const KEY_USAGE_BITS: usize = 9;
 		if self.key_usages.is_empty() {
 			return;
 		}
@@ -477,7 +474,11 @@ impl CertificateParams {
 			let bit_string = self.key_usages.iter().fold(0u16, |bit_string, key_usage| {
 				bit_string | key_usage.to_u16()
 			});
-			writer.write_bitvec_bytes(&bit_string.to_be_bytes(), KEY_USAGE_BITS);
+			// KeyUsage is a named bit list: DER requires trailing zero bits to be
+			// removed before encoding (X.690 11.2.2).
+			let bits = (u16::BITS - bit_string.trailing_zeros()) as usize;
+			let bytes = bit_string.to_be_bytes();
+			writer.write_bitvec_bytes(&bytes[..(bits + 7) / 8], bits);
 		});
 	}
 
